@@ -202,6 +202,16 @@ func genSCTList(t *rapid.T) []byte {
 		if chance(t, "badsct", 4) {
 			s = s[:rapid.IntRange(0, len(s)-1).Draw(t, "cut")]
 		}
+		if chance(t, "sctlenlie", 5) {
+			// the SCT's own length prefix promises more (or less) than there is
+			l := len(s) + pickOf(t, "sctd", []int{1, 2, 100, 60000, -1})
+			if l < 0 {
+				l = 0
+			}
+			list = append(list, byte(l>>8), byte(l))
+			list = append(list, s...)
+			continue
+		}
 		list = append(list, v16(s)...)
 	}
 	if chance(t, "lie", 5) {
